@@ -638,6 +638,7 @@ const (
 func (f *Composite) unpackSubfieldsByTag(data []byte) (int, string, error) {
 	offset := 0
 	for offset < len(data) {
+		start := offset
 		tagBytes, read, err := f.spec.Tag.Enc.Decode(data[offset:], f.spec.Tag.Length)
 		if err != nil {
 			return 0, "", fmt.Errorf("failed to unpack subfield Tag: %w", err)
@@ -690,6 +691,12 @@ func (f *Composite) unpackSubfieldsByTag(data []byte) (int, string, error) {
 		f.setSubfields[tag] = struct{}{}
 
 		offset += read
+
+		// an element that consumes neither tag nor value bytes (Tag.Length 0
+		// and a zero-width subfield) would be read again forever
+		if offset == start {
+			return 0, tag, fmt.Errorf("failed to unpack subfield %v: no data consumed", tag)
+		}
 	}
 	return offset, "", nil
 }
